@@ -45,6 +45,7 @@ pub fn main(args: &[String]) -> i32 {
     let mut argsv: Vec<Value> = vec![Value::Null; n];
     let mut bad = 0usize;
     let mut calls = 0usize;
+    let mut skipped = 0usize;
     for ln in &lines {
         let i = us(&ln["i"]);
         if i >= n || uni[i].is_some() {
@@ -54,6 +55,11 @@ pub fn main(args: &[String]) -> i32 {
         argsv[i] = ln["a"].clone();
         match construct(&ln["a"]) {
             Ok(a) => uni[i] = Some(a),
+            // conditional family: the property does not say whether the constructor accepts these arguments
+            Err(_) if ln["optional"].as_bool().unwrap_or(false) => {
+                skipped += 1;
+                uni[i] = None;
+            },
             Err(p) => {
                 bad += 1;
                 out.emit(&json!({"i": i, "detail": {"call": "constructor", "a": ln["a"], "expected": "ok", "got": "panic", "panic": p}}));
@@ -152,7 +158,7 @@ pub fn main(args: &[String]) -> i32 {
             }
         }
     }
-    out.emit(&json!({"summary": true, "scenarios": n, "ops": calls, "mismatches": bad}));
+    out.emit(&json!({"summary": true, "scenarios": n, "ops": calls, "mismatches": bad, "not_constructible": skipped}));
     out.flush();
     0
 }
